@@ -434,6 +434,11 @@ def rule_rows(ctx):
     ret = canon(nb.ret_expr())
     wfile = dict(re.findall(r'(\w+_writer): create_writer\(\d+, join\(get_one\(a1, "dump-folder"\)\?, "(\w+)\.csv\.tmp"\)\)\?', ret))
     ctx.check('rows', 'writer-file-map', wfile == {'block_writer': 'blocks', 'tx_writer': 'transactions', 'txin_writer': 'tx_in', 'txout_writer': 'tx_out'}, nb, 'writers: %s' % wfile)
+    # "exactly one row per ... item": the four files start empty — whatever the constructor opens, it opens truncating
+    opens = [c for rb in prog.reachable_bodies([nb]) for c in rb.calls if re.search(r'^std::fs::(File::create|File::create_new|File::options|OpenOptions::)', c.name)]
+    ctx.check('rows', 'writers-start-empty', bool(opens) and all(c.name == 'std::fs::File::create' for c in opens), opens[0] if opens else nb,
+              'output files are opened with the truncating File::create',
+              bad_detail='output files are opened with %s: rows left in a *.csv.tmp by an interrupted run would follow the new rows' % sorted(set(c.name for c in opens)))
     tx = 'each(a2.txs)'
     bh = 'a2.header.hash'
     th = '%s.hash' % tx
@@ -510,5 +515,5 @@ def run(ctx):
     ctx.floor('compact', 21)
     ctx.floor('ser', 38)
     ctx.floor('cols', 38)
-    ctx.floor('rows', 15)
+    ctx.floor('rows', 16)
     ctx.floor('totals', 9)
